@@ -456,9 +456,16 @@ func (k *Kernel) doReadDir(t *task, path string) Rep {
 	}
 	names, isDir := k.disk.children(path)
 	flags := make([]byte, len(names))
+	pre := path
+	if pre != "/" {
+		pre += "/"
+	}
 	for i, d := range isDir {
 		if d {
 			flags[i] = 1
+		}
+		if _, isLink := k.disk.Links[pre+names[i]]; isLink {
+			flags[i] = 2 // a symbolic link (what it points to is not looked at here)
 		}
 	}
 	return Rep{Strs: names, Data: flags}
